@@ -509,7 +509,7 @@ class BatteryDistributionAlgorithm:
             inverter_set = _InverterSet(ratio_data.inverter_ids)
             # ratio = 0, means all remaining batteries reach max SoC lvl or have no
             # capacity
-            if is_close_to_zero(ratio):
+            if is_close_to_zero(ratio) or is_close_to_zero(ratio_data.ratio):
                 distribution[inverter_set] = _Power(
                     upper_bound=0.0,
                     power=0.0,
